@@ -722,10 +722,13 @@ theorem wsucc_stmt_localFn {n : Nat}
   simp only [wfS, Bool.and_eq_true] at g
   cases sc with
   | true =>
-    rw [visitStmt_localFn_scoped P n st st1 s s1 s2 h1 hcs kind name body h2]
-    apply h.afterStmtNode
-    simp only [hSc, wfS, Hins, Hins1, Bool.and_eq_true]
-    grind
+    cases body with
+    | mk params variadic varTy ret generics attrs blk =>
+      simp only [wfF, Bool.and_eq_true] at g
+      rw [visitStmt_localFn_scoped P n st st1 s s1 s2 h1 hcs kind name params variadic varTy ret generics attrs blk h2]
+      apply h.afterStmtNode
+      simp only [hSc, wfS, wfF, Hins, Hins1, Bool.and_eq_true]
+      grind
   | false =>
     rw [visitStmt_localFn_default P n st st1 s s1 s2 h1 hcs kind name body h2]
     apply h.afterStmtNode
@@ -857,10 +860,17 @@ theorem wsucc_stmt_typeFn {n : Nat}
     simp only [wfS, Bool.and_eq_true] at g
 
     simp only [wfF, Bool.and_eq_true] at g
-    rw [visitStmt_typeFn P sc n st st1 s s1 s2 h1 hcs ex name params variadic varTy ret generics attrs blk h2]
-    apply h.afterStmtNode
-    simp only [hSc, wfS, wfF, Bool.and_eq_true]
-    grind
+    cases sc with
+    | true =>
+      rw [visitStmt_typeFn_scoped P n st st1 s s1 s2 h1 hcs ex name params variadic varTy ret generics attrs blk h2]
+      apply h.afterStmtNode
+      simp only [hSc, wfS, wfF, Hins, Bool.and_eq_true]
+      grind
+    | false =>
+      rw [visitStmt_typeFn_default P n st st1 s s1 s2 h1 hcs ex name params variadic varTy ret generics attrs blk h2]
+      apply h.afterStmtNode
+      simp only [hSc, wfS, wfF, Bool.and_eq_true]
+      grind
 
 theorem wsucc_stmt (h : WfHooks P) (n : Nat) (L : WLevel P sc n) (LL : WLists P sc n) :
     ∀ st s, wfS st = true → wfS (visitStmt P sc (n + 1) st s).1 = true := by
